@@ -231,3 +231,7 @@ def cross(res):
 
 def search(rng, ops, broken):
     return cases(rng, "quick")
+
+
+# tie theorems (substrings of SLV.Gen.*Tie theorem names) this property's operators depend on
+TIE = ['compute_simlex', 'compute_base_rate', 'gen_fuse', 'discount', 'projection', 'max_uncertainty', 'uncertainty_maximized', 'gen_mbr', 'deduce_of', 'inverse', 'abduce', 'product', 'merge', 'normalize', 'Simplex_normalized', 'projections']
